@@ -32,18 +32,28 @@ def written_magnitude(text):
 
 def run(ctx):
     # the last shard imports only a subset of the unit modules: symbol resolution depends on the whole table
+    # and the shard before it imports the core package alone (no prefix has a symbol there) or with one small
+    # module, and declares its own units at run time, as a program with a private unit system does
     subset = None
     if ctx.nshards > 1 and ctx.shard == ctx.nshards - 1:
-        subset = ctx.rng.choice([["si"], ["si", "iec"], ["si", "us"], ["si", "energy", "natural"]])
+        subset = ctx.rng.choice([["si"], ["si", "iec"], ["si", "us"], ["si", "energy", "natural"], ["iec"]])
         ctx.count("shards_with_module_subset")
-    env = kit.Env(ctx, need_oracle=False, modules=subset or "all")
+    elif ctx.nshards > 2 and ctx.shard == ctx.nshards - 2:
+        subset = ctx.rng.choice([[], [], ["geometry"]])
+        ctx.count("shards_with_core_package_only" if not subset else "shards_with_module_subset")
+    env = kit.Env(ctx, need_oracle=False, modules=subset if subset is not None else "all")
     m, rng = env.m, ctx.rng
     Unit, Quantity, Prefix, Dimension = m.Unit, m.Quantity, m.Prefix, m.Dimension
+    if subset is not None and "si" not in subset:
+        for nm, sy, dim in (("smoot", "smoot", m.Length), ("blink", "bl", m.Time), ("glug", "gg", m.Volume), ("m-ish", "m", m.Length)):
+            if nm not in Unit._by_name and sy not in Unit._by_symbol:
+                Unit.define(dim, nm, sy)
+                ctx.count("units_declared_at_run_time")
     from measured.parsing import ParseError
 
     symbols = sorted(Unit._by_symbol)
     psyms = sorted(Prefix._by_symbol)
-    pool = list(textgen.COMMON_SYMBOLS) + rng.sample(symbols, min(len(symbols), 120)) + [p + s for p in rng.sample(psyms, 8) for s in rng.sample(symbols, 6)]
+    pool = list(textgen.COMMON_SYMBOLS) + rng.sample(symbols, min(len(symbols), 120)) + [p + s for p in rng.sample(psyms, min(8, len(psyms))) for s in rng.sample(symbols, min(6, len(symbols)))]
     gen = textgen.TextGen(rng, symbols=pool)
 
     def registries():
